@@ -40,6 +40,7 @@ def gen_knobs(rng, profile=None):
         "cfg_opts": rng.random() < 0.4,
         "sub_in_base": rng.random() < 0.3,
         "subclass_values": True,
+        "shared_codec_threads": True,
         "schema_omit": True,
         "field_ser": rng.random() < 0.3,
         "orjson_opts": rng.random() < 0.3,
@@ -1038,7 +1039,8 @@ def gen_conc(rng, fam, kn, defined, first_bias=None, codecs=None):
     for _ in range(nthreads):
         prog = []
         for _ in range(rng.choice([1, 1, 2, 3])):
-            if kn.get("codecs") and codecs and rng.random() < 0.2:
+            if kn.get("codecs") and codecs and kn.get("shared_codec_threads", True) \
+                    and rng.random() < 0.2:
                 # a codec object created earlier in the history, shared by threads
                 base = rng.choice(codecs)
                 op = {k: base[k] for k in ("k", "id", "fmt", "dir", "shape", "dd") if k in base}
